@@ -150,6 +150,19 @@ def allIds (h : List (List Meta)) : List ID := h.flatMap fun b => b.map (·.id)
 /-- the proxy gives every document of a bulk its own id -/
 def DistinctBulks (h : List (List Meta)) : Prop := ∀ b ∈ h, (b.map (·.id)).Nodup
 
+/-- the shape of a bulk with nested metas, as `proxy/bulk/indexer.go` emits it: every document is one meta with
+`Size > 0` (its id occurs for the first time in the bulk) followed by any number of nested metas with `Size = 0`
+and the *same* id.  `seen` = ids met so far in the bulk, `cur` = id of the document being continued. -/
+def NestedOK : List ID → Option ID → List Meta → Prop
+  | _, _, [] => True
+  | seen, cur, m :: ms =>
+    (if m.size = 0 then cur = some m.id else m.id ∉ seen) ∧ NestedOK (m.id :: seen) (some m.id) ms
+
+def BulkOK (b : List Meta) : Prop := NestedOK [] none b
+
+/-- every bulk of the history is a sequence of documents, each with its nested metas, with pairwise distinct ids -/
+def GoodBulks (h : List (List Meta)) : Prop := ∀ b ∈ h, BulkOK b
+
 /-- first delivery of an id in a history -/
 def firstMeta (h : List (List Meta)) (i : ID) : Option Meta := h.flatten.find? fun m => m.id == i
 
